@@ -14,6 +14,7 @@ package main
 // The model must predict the observation exactly.
 
 import (
+	"github.com/storacha/go-ucanto/core/dag/blockstore"
 	"bufio"
 	"bytes"
 	"crypto/ed25519"
@@ -776,6 +777,42 @@ func c12WriteArchive(o genOpts, a *c12Archive, muts []c12Mut, st *c12Stats, file
 			}
 			if obs.panicked != "" {
 				direct("decode-panic", obs.panicked)
+			}
+			// the block stores built on the decoder forward what it reports: when a section of this archive is delivered as
+			// an error, NewBlockStore / NewBlockReader over a fresh decode of it return an error instead of a store that
+			// silently lacks blocks
+			if obs.hdrOK && obs.panicked == "" && !obs.overrun {
+				hasErr := false
+				for _, it := range obs.items {
+					if !it.ok {
+						hasErr = true
+					}
+				}
+				if hasErr {
+					for vi, mk := range []func(it func(func(ipld.Block, error) bool)) error{
+						func(it func(func(ipld.Block, error) bool)) error {
+							_, err := blockstore.NewBlockStore(blockstore.WithBlocksIterator(it))
+							return err
+						},
+						func(it func(func(ipld.Block, error) bool)) error {
+							_, err := blockstore.NewBlockReader(blockstore.WithBlocksIterator(it))
+							return err
+						}} {
+						var serr error
+						if p := recovered(func() {
+							_, blocks, derr := car.Decode(bytes.NewReader(arch))
+							if derr != nil {
+								serr = derr
+								return
+							}
+							serr = mk(blocks)
+						}); p != nil {
+							direct("blockstore-panic", fmt.Sprintf("block store over the decoder panicked: %v", p))
+						} else if serr == nil {
+							direct("blockstore-swallows-error", []string{"NewBlockStore", "NewBlockReader"}[vi]+"(WithBlocksIterator(car.Decode(...))) returned a store and no error although the decoder reports a bad section")
+						}
+					}
+				}
 			}
 			if obs.overrun {
 				direct("iterator-does-not-end", "more items than input bytes")
